@@ -425,10 +425,24 @@ func c12OwnerRefFilter(r *Run, e *Effect, oldDSKey string, record bool) bool {
 }
 
 func c12GetKey(r *Run, e *Effect) {
+	c12GetKeyValue(r, e, e.Call.Common().Args[1], 0)
+}
+
+// c12GetKeyValue checks one value that can be the key of the Get; a key received as a parameter
+// is checked at every call site of the function.
+func c12GetKeyValue(r *Run, e *Effect, key ssa.Value, depth int) {
 	fn := e.Fn
 	pos := r.Prog.Pos(e.Call.Pos())
-	key := e.Call.Common().Args[1]
 	construct := "Get(" + shortKind(e.Kind) + ") key"
+	if pr, isP := key.(*ssa.Parameter); isP && depth < 3 {
+		args := r.Prog.stepOut(pr)
+		if len(args) > 0 {
+			for _, a := range args {
+				c12GetKeyValue(r, e, a, depth+1)
+			}
+			return
+		}
+	}
 	// request.NamespacedName
 	if hasPathSuffix(key, "NamespacedName") {
 		root, _ := accessPath(key)
